@@ -8,6 +8,10 @@
                  the text from the create arguments, the input sizes and the compressed size
      c17i_rate   the two-decimal rendering of the f64 quotient (CliInfo.rate_text) on pairs
    Rows: [0; exit status] then [1 :: line] per line of standard output. *)
+From MLA Require Import Limit.
+From MLAGen Require Src.
+(* executable entry points: the production value of BINCODE_MAX_DESERIALIZE (the same in both flavours), file-local *)
+#[local] Instance RUN_LIMIT : Limit := MLAGen.Src.BINCODE_MAX_DESERIALIZE_prod.
 From MLA Require Import Base Stream Inst Blocks Reader Format Ecies Archive CompLayer CliInfo CliInfoProofs RunC17.
 From MLAGen Require Src.
 Open Scope N_scope.
